@@ -122,3 +122,14 @@ def unchanged(before, x, what="argument"):
     if snapshot(x) != before:
         return f"{what} was modified by the call"
     return None
+
+
+def double_through_a_view(p):
+    """Multiply every coefficient of p by two IN PLACE, writing through another object over the same memory (the transposed view;
+    a plain view for 0-d): afterwards p holds 2*p_old although no method of p itself was involved."""
+    import numpy
+    v = p.T if p.ndim else numpy.ndarray.view(p)
+    raw = v.values
+    for key in v.keys:
+        raw[key] *= 2
+    return p
